@@ -206,6 +206,49 @@ def compile_composition(args):
     return [] if okay else [('g++ -std=c++17 -fsyntax-only rejects the composition', 'accepted', err + '\n' + src[:1500])]
 
 
+def helper_equivalences(chk):
+    """The shortcut creators of cpp_gen (fqn_t, void_t .. double_t, decl_var_*_t, param_t, const_param_*_t) yield exactly the
+    renderings of the explicit constructions that the model decides (only renderings are compared, not the objects)."""
+    core.repo_guard()
+    from dznpy import cpp_gen as cpp, scoping  # pylint: disable=import-outside-toplevel
+    post = cpp.TypePostfix
+
+    def same(what, helper, explicit, renders=('__str__',)):
+        chk.count(('helper', what))
+        try:
+            got, exp = helper(), explicit()
+            for attr in renders:
+                gval = str(got) if attr == '__str__' else getattr(got, attr)
+                xval = str(exp) if attr == '__str__' else getattr(exp, attr)
+                if gval != xval:
+                    chk.violation(f'{what}: renders {gval!r}, the explicit construction {xval!r}', {'helper': what})
+                    return
+        except Exception as exc:  # pylint: disable=broad-except
+            chk.violation(f'{what}: {type(exc).__name__}: {exc}', {'helper': what})
+    for ids in ([], ['T'], ['ns', 'T'], ['a', 'b', 'c']):
+        for root in (False, True):
+            same(f'fqn_t({ids}, {root})', lambda: cpp.fqn_t(list(ids), root), lambda: cpp.Fqn(scoping.ns_ids_t(list(ids)), root))
+            if ids:
+                same(f'fqn_t("{".".join(ids)}", {root})', lambda: cpp.fqn_t('.'.join(ids), root),
+                     lambda: cpp.Fqn(scoping.ns_ids_t(list(ids)), root))
+                fqn = cpp.Fqn(scoping.ns_ids_t(list(ids)), root)
+                for name, pfx in (('decl_var_t', post.NONE), ('decl_var_ref_t', post.REFERENCE), ('decl_var_ptr_t', post.POINTER)):
+                    same(f'{name}({ids}, {root})', lambda: getattr(cpp, name)(fqn, 'm_x'),
+                         lambda: cpp.MemberVariable(type=cpp.TypeDesc(fqn=fqn, postfix=pfx), name='m_x'))
+                for dflt in ('', '3'):
+                    same(f'param_t({ids}, {root}, {dflt!r})', lambda: cpp.param_t(fqn, 'p', dflt),
+                         lambda: cpp.Param(type_desc=cpp.TypeDesc(fqn, default_value=dflt), name='p'), ('as_decl', 'as_def'))
+                    for name, pfx in (('const_param_ref_t', post.REFERENCE), ('const_param_ptr_t', post.POINTER)):
+                        same(f'{name}({ids}, {root}, {dflt!r})', lambda: getattr(cpp, name)(fqn, 'p', dflt),
+                             lambda: cpp.Param(type_desc=cpp.TypeDesc(fqn=fqn, postfix=pfx, const=True, default_value=dflt), name='p'),
+                             ('as_decl', 'as_def'))
+                same(f'param_t({ids}, {root}) without default', lambda: cpp.param_t(fqn, 'p'),
+                     lambda: cpp.Param(type_desc=cpp.TypeDesc(fqn), name='p'), ('as_decl', 'as_def'))
+        same(f'fqn_t(None)', lambda: cpp.fqn_t(None), lambda: cpp.Fqn(scoping.ns_ids_t([]), False))
+    for name in ('void', 'int', 'float', 'double'):
+        same(f'{name}_t()', getattr(cpp, name + '_t'), lambda: cpp.TypeDesc(fqn=cpp.Fqn(scoping.ns_ids_t([name]), False)))
+
+
 def check_c20(tier, seed):
     chk = core.Check('C20', tier, seed)
     core.repo_guard()
@@ -235,6 +278,7 @@ def check_c20(tier, seed):
             members.append(rng.choice(pools['dtor']))
         jobs.append((members, rng.choice([[], ['A'], ['A', 'B'], ['A', 'B', 'C']]), rng.choice(['struct', 'class']), f'comp{n}'))
     replay_parallel(chk, jobs, compile_composition, 'composition', lambda j: j[3])
+    helper_equivalences(chk)
     chk.programs = len(jobs)
     chk.exhaustive = True
     chk.assumptions = ['compositions are restricted to member combinations C++ allows (no static+const, = default only on '
